@@ -5,6 +5,8 @@ import (
 	"crypto"
 	"crypto/ecdsa"
 	"crypto/ed25519"
+	"crypto/elliptic"
+	crand "crypto/rand"
 	"crypto/rsa"
 	"errors"
 	"fmt"
@@ -324,6 +326,33 @@ func runC01(c *Collector, r *Rng, thorough bool) {
 				}
 			}
 
+			// --- COSE_Sign whose body protected bucket carries an alg of its own (RFC 9052: alg = int / tstr; nothing
+			// checks the body's alg when signing): text identifiers, private-use and unregistered integers ---
+			if i < 2 {
+				for vi, bodyAlg := range []any{"ES256", "HSS-LMS", "", int64(-65537), int64(-260), int64(7), cose.Algorithm(-65540)} {
+					bm := &cose.SignMessage{Headers: cose.Headers{Protected: cose.ProtectedHeader{cose.HeaderLabelAlgorithm: bodyAlg}, Unprotected: cose.UnprotectedHeader{}}, Payload: payload,
+						Signatures: []*cose.Signature{{Headers: cose.Headers{Protected: cose.ProtectedHeader{cose.HeaderLabelAlgorithm: k.alg}, Unprotected: cose.UnprotectedHeader{}}}}}
+					if err := bm.Sign(r, ext, signer); err != nil {
+						continue
+					}
+					c.Eval("signmsg-body-alg/"+k.alg.String(), fmt.Sprint(vi, i), true)
+					brep := map[string]any{"alg": k.alg.String(), "key": k.name, "body_alg": fmt.Sprintf("%T %v", bodyAlg, bodyAlg)}
+					if err := bm.Verify(ext, verifier); err != nil {
+						fail("signmsg-memory", "COSE_Sign whose body protected bucket names an alg does not verify in memory: "+err.Error(), brep)
+					}
+					bb, err := bm.MarshalCBOR()
+					if err != nil {
+						continue
+					}
+					var back cose.SignMessage
+					if err := back.UnmarshalCBOR(bb); err != nil {
+						brep["data"] = hx(trimTo(bb, 300))
+						fail("signmsg-own-output-not-decodable", "a signed COSE_Sign whose body protected bucket names an alg was serialised but cannot be parsed back: "+err.Error(), brep)
+					} else if err := back.Verify(ext, verifier); err != nil {
+						fail("signmsg-wire", "COSE_Sign whose body protected bucket names an alg does not verify after a wire round trip: "+err.Error(), brep)
+					}
+				}
+			}
 			// --- protected buckets carrying tagged values, integers beyond int64, or nothing but a serialized empty map
 			// given as bytes (h'a0'): signed, serialised, parsed back, verified ---
 			if i < 2 {
@@ -384,6 +413,7 @@ func runC01(c *Collector, r *Rng, thorough bool) {
 			}
 		}
 	}
+	c01Shared(c, r, keys)
 }
 
 func trimTo(b []byte, n int) []byte {
@@ -748,6 +778,73 @@ func runC07(c *Collector, r *Rng, thorough bool) {
 		n = 2500
 	}
 	cfg := GenCfg{MaxEntries: 6, ValDepth: 3, Csig: 0, Tags: true, Floats: true, NoAlg: true}
+	// deterministic part: registered parameters the RFC 9052 section 3.1 rules do not govern (CWT claims with every
+	// legal claim shape - NumericDates as integers and as floats of each width, x5chain / x5bag as one certificate or
+	// several, x5t, x5u, kcwt / kccs style maps), in the protected and in the unprotected bucket: conforming, accepted
+	for ki, k := range []realKey{keys[0], keys[3]} {
+		claimSets := []*W{
+			wMap(-1, wInt(1, -1), wTstr("issuer", -1), wInt(2, -1), wTstr("subject", -1), wInt(3, -1), wTstr("audience", -1), wInt(4, -1), wInt(1700000000, -1), wInt(5, -1), wInt(1600000000, -1), wInt(6, -1), wInt(1650000000, -1), wInt(7, -1), wBstr([]byte{1, 2}, -1)),
+			wMap(-1, wInt(4, -1), wFloat64(1700000000.5), wInt(5, -1), wFloat32(1.5e9), wInt(6, -1), wFloat16bits(0x7bff)),
+			wMap(-1, wInt(4, -1), wInt(-1, -1), wInt(6, -1), wFloat64(-0.5)),
+			wMap(-1, wInt(8, -1), wMap(-1, wInt(1, -1), wMap(-1, wInt(1, -1), wInt(2, -1)))),
+			wMap(-1, wTstr("private claim", -1), wArr(-1, wInt(1, -1), wNull()), wInt(-70000, -1), wBool(true)),
+			wMap(-1),
+		}
+		var params [][2]*W
+		for _, cs := range claimSets {
+			params = append(params, [2]*W{wInt(15, -1), cs})
+		}
+		params = append(params,
+			[2]*W{wInt(33, -1), wBstr([]byte{0x30, 0x03, 1, 2, 3}, -1)},
+			[2]*W{wInt(33, -1), wArr(-1, wBstr([]byte{0x30, 1}, -1), wBstr([]byte{0x30, 2}, -1))},
+			[2]*W{wInt(32, -1), wArr(-1, wBstr([]byte{0x30, 1}, -1))},
+			[2]*W{wInt(34, -1), wArr(-1, wInt(-16, -1), wBstr(make([]byte, 32), -1))},
+			[2]*W{wInt(35, -1), wTstr("https://example.org/cert", -1)},
+			[2]*W{wInt(13, -1), wMap(-1, wInt(8, -1), wMap(-1, wInt(1, -1), wMap(-1, wInt(1, -1), wInt(1, -1))))},
+			[2]*W{wInt(14, -1), wMap(-1, wInt(1, -1), wTstr("iss", -1))},
+			[2]*W{wInt(8, -1), wMap(-1, wInt(1, -1), wInt(2, -1))},
+			[2]*W{wInt(10, -1), wBstr([]byte{1}, -1)},
+		)
+		ext := []byte("e")
+		pl := []byte("payload")
+		for pi, prm := range params {
+			for _, inProtected := range []bool{true, false} {
+				pkv := []*W{wInt(1, -1), wInt(int64(k.alg), -1)}
+				ukv := []*W{}
+				if inProtected {
+					pkv = append(pkv, prm[0].Clone(), prm[1].Clone())
+				} else {
+					ukv = append(ukv, prm[0].Clone(), prm[1].Clone())
+				}
+				content := wMap(-1, pkv...).Ser()
+				sig := refSign(r, k, refArray(refTstr("Signature1"), refBstr(content), refBstr(ext), refBstr(pl)))
+				data := wTag(18, -1, wArr(-1, wBstr(content, -1), wMap(-1, ukv...), wBstr(pl, -1), wBstr(sig, -1))).Ser()
+				rep := map[string]any{"alg": k.alg.String(), "data": hx(data), "parameter": hx(prm[0].Ser()) + " " + hx(prm[1].Ser())}
+				d := decodeCase(c, "conforming/ungoverned-parameters/DSign1", "DSign1", data)
+				if d.paniced {
+					continue
+				}
+				c.Eval("ungoverned-parameters/sign1", fmt.Sprint(ki, pi, inProtected), true)
+				if d.err != nil {
+					c.Fail("C07/rejected", "conforming message refused: "+d.err.Error(), rep)
+				} else if err := d.s1.Verify(ext, k.verifier()); err != nil {
+					c.Fail("C07/verify", "message signed by an independent implementation over its wire bytes does not verify: "+err.Error(), rep)
+				}
+				ssig := refSign(r, k, refArray(refTstr("Signature"), refBstr(content), refBstr(content), refBstr(ext), refBstr(pl)))
+				mdata := wTag(98, -1, wArr(-1, wBstr(content, -1), wMap(-1, ukv...), wBstr(pl, -1), wArr(-1, wArr(-1, wBstr(content, -1), wMap(-1, ukv...), wBstr(ssig, -1))))).Ser()
+				dm := decodeCase(c, "conforming/ungoverned-parameters/DSignMsg", "DSignMsg", mdata)
+				if dm.paniced {
+					continue
+				}
+				rep2 := map[string]any{"alg": k.alg.String(), "data": hx(mdata)}
+				if dm.err != nil {
+					c.Fail("C07/rejected", "conforming COSE_Sign refused: "+dm.err.Error(), rep2)
+				} else if err := dm.sm.Verify(ext, k.verifier()); err != nil {
+					c.Fail("C07/verify", "COSE_Sign signed by an independent implementation does not verify: "+err.Error(), rep2)
+				}
+			}
+		}
+	}
 	// deterministic part: every spelling of the protected bucket's length prefix (all five head widths) around an
 	// empty bucket, a serialized empty map, and a bucket with alg, in every layer, signed by the standard library over
 	// the RFC structures of the bytes as sent
@@ -994,6 +1091,7 @@ func runC07(c *Collector, r *Rng, thorough bool) {
 // standard library over the RFC structure: accepted; with one bit of the signature flipped: refused. Then one verifier
 // of each algorithm shared by 32 goroutines verifying valid messages at once: each verdict is the sequential one.
 func c03AllKeys(c *Collector, r *Rng) {
+	c03MalformedKeys(c, r)
 	keys := append([]realKey{}, realKeySet(r)...)
 	// ECDSA keys under the other ES algorithms as well (the library lets any curve sign under any of them: the digest
 	// may be longer or shorter than the curve order)
@@ -1078,6 +1176,140 @@ func c03AllKeys(c *Collector, r *Rng) {
 		c.Eval("shared-verifier/"+k.name+"/"+k.alg.String(), fmt.Sprint(len(valid)), true)
 		if refused > 0 {
 			c.Fail("C03/verdict-depends-on-concurrent-use", fmt.Sprintf("%d of 1920 verifications of valid messages were refused (or panicked) when 32 goroutines shared one %v verifier", refused, k.alg), map[string]any{"key": k.name, "alg": k.alg.String()})
+		}
+	}
+}
+
+// c01Shared: one Signer and one Verifier of each key shared by 16 goroutines that sign, serialise, parse back and verify
+// messages with large payloads at the same time (a signing service does exactly this): every message signed must verify,
+// with the shared verifier and with a verifier of its own.
+func c01Shared(c *Collector, r *Rng, keys []realKey) {
+	payloads := make([][]byte, 16)
+	for i := range payloads {
+		payloads[i] = r.Bytes(256 * 1024)
+	}
+	for _, k := range keys {
+		signer, verifier := k.signer(), k.verifier()
+		var wg sync.WaitGroup
+		var mu sync.Mutex
+		bad := map[string]int{}
+		note := func(what string) { mu.Lock(); bad[what]++; mu.Unlock() }
+		rounds := 6
+		if _, isRSA := k.priv.(*rsa.PrivateKey); isRSA {
+			rounds = 3
+		}
+		for g := 0; g < 16; g++ {
+			wg.Add(1)
+			go func(g int) {
+				defer wg.Done()
+				for round := 0; round < rounds; round++ {
+					ext := []byte{byte(g), byte(round)}
+					m := &cose.Sign1Message{Headers: cose.Headers{Protected: cose.ProtectedHeader{cose.HeaderLabelAlgorithm: k.alg}, Unprotected: cose.UnprotectedHeader{int64(4): []byte{byte(g)}}}, Payload: payloads[(g+round)%len(payloads)]}
+					var err error
+					if p, _ := protect(func() { err = m.Sign(crand.Reader, ext, signer) }); p || err != nil {
+						note(fmt.Sprintf("Sign failed or panicked (%v)", err))
+						continue
+					}
+					var b []byte
+					if p, _ := protect(func() { b, err = m.MarshalCBOR() }); p || err != nil {
+						note("MarshalCBOR failed")
+						continue
+					}
+					var back cose.Sign1Message
+					if p, _ := protect(func() { err = back.UnmarshalCBOR(b) }); p || err != nil {
+						note("own output not decodable")
+						continue
+					}
+					if p, _ := protect(func() { err = back.Verify(ext, verifier) }); p || err != nil {
+						note("shared verifier refused (or panicked on) a message just signed")
+					}
+					own := k.verifier()
+					if p, _ := protect(func() { err = back.Verify(ext, own) }); p || err != nil {
+						note("a verifier of its own refused a message signed by the shared signer")
+					}
+				}
+			}(g)
+		}
+		wg.Wait()
+		c.Eval("shared-signer-verifier/"+k.name+"/"+k.alg.String(), fmt.Sprint(rounds), true)
+		if len(bad) > 0 {
+			c.Fail("C01/shared-key-concurrent", fmt.Sprintf("one %v signer and verifier shared by 16 goroutines (256 KiB payloads): %v", k.alg, bad), map[string]any{"key": k.name, "alg": k.alg.String()})
+		}
+	}
+}
+
+// c03MalformedKeys: public keys that are not keys (an Ed25519 key of the wrong length, an ECDSA point off the curve or
+// at the origin, an RSA modulus of one, a nil coordinate): whatever NewVerifier and Verify do with them (refuse, fail,
+// even panic), they never report a signature as valid - no signature is valid under a key that is not one.
+func c03MalformedKeys(c *Collector, r *Rng) {
+	var good ed25519.PublicKey
+	var goodPriv ed25519.PrivateKey
+	for _, k := range realKeySet(r) {
+		if p, ok := k.pub.(ed25519.PublicKey); ok {
+			good, goodPriv = p, k.priv.(ed25519.PrivateKey)
+		}
+	}
+	type bk struct {
+		name string
+		alg  cose.Algorithm
+		pub  crypto.PublicKey
+	}
+	var bad []bk
+	for _, n := range []int{0, 1, 16, 31, 33, 48, 64} {
+		kb := make([]byte, n)
+		copy(kb, good)
+		if n > len(good) {
+			copy(kb[len(good):], good)
+		}
+		bad = append(bad, bk{fmt.Sprintf("ed25519-of-%d-octets", n), cose.AlgorithmEdDSA, ed25519.PublicKey(kb)})
+	}
+	bad = append(bad, bk{"ed25519-nil", cose.AlgorithmEdDSA, ed25519.PublicKey(nil)})
+	for _, ci := range curves {
+		prm := ci.curve.Params()
+		bad = append(bad,
+			bk{ci.name + "-origin", ci.alg, &ecdsa.PublicKey{Curve: ci.curve, X: big.NewInt(0), Y: big.NewInt(0)}},
+			bk{ci.name + "-off-curve", ci.alg, &ecdsa.PublicKey{Curve: ci.curve, X: new(big.Int).Set(prm.Gx), Y: new(big.Int).Add(prm.Gy, big.NewInt(1))}},
+			bk{ci.name + "-x-beyond-p", ci.alg, &ecdsa.PublicKey{Curve: ci.curve, X: new(big.Int).Add(prm.Gx, prm.P), Y: new(big.Int).Set(prm.Gy)}},
+			bk{ci.name + "-nil-coordinates", ci.alg, &ecdsa.PublicKey{Curve: ci.curve}},
+		)
+	}
+	_ = elliptic.P256
+	for _, a := range []cose.Algorithm{cose.AlgorithmPS256, cose.AlgorithmPS384, cose.AlgorithmPS512} {
+		bad = append(bad,
+			bk{"rsa-modulus-1", a, &rsa.PublicKey{N: big.NewInt(1), E: 65537}},
+			bk{"rsa-modulus-nil", a, &rsa.PublicKey{E: 65537}},
+			bk{"rsa-exponent-1", a, &rsa.PublicKey{N: new(big.Int).Lsh(big.NewInt(1), 2047), E: 1}},
+		)
+	}
+	pcontent := func(a cose.Algorithm) []byte { return wMap(-1, wInt(1, -1), wInt(int64(a), -1)).Ser() }
+	for _, b := range bad {
+		var vf cose.Verifier
+		var nerr error
+		if p, _ := protect(func() { vf, nerr = cose.NewVerifier(b.alg, b.pub) }); p || nerr != nil || vf == nil {
+			c.Eval("malformed-key/refused/"+b.name, b.alg.String(), true)
+			continue
+		}
+		pl := []byte("payload")
+		tbs := refArray(refTstr("Signature1"), refBstr(pcontent(b.alg)), refBstr(nil), refBstr(pl))
+		sigs := [][]byte{make([]byte, 64), bytes.Repeat([]byte{1}, 64), make([]byte, 96), make([]byte, 132), make([]byte, 256), bytes.Repeat([]byte{0, 1}, 128), {}, {1}}
+		if goodPriv != nil {
+			sigs = append(sigs, ed25519.Sign(goodPriv, tbs))
+		}
+		for si, sig := range sigs {
+			m := &cose.Sign1Message{Headers: cose.Headers{RawProtected: refBstr(pcontent(b.alg)), Protected: cose.ProtectedHeader{cose.HeaderLabelAlgorithm: b.alg}}, Payload: pl, Signature: sig}
+			var err error
+			p, _ := protect(func() { err = m.Verify(nil, vf) })
+			c.Eval("malformed-key/"+b.name, fmt.Sprint(si, b.alg), true)
+			if !p && err == nil {
+				c.Fail("C03/verdict", fmt.Sprintf("Verify returned nil under a public key that is not a key (%s): no signature is valid under it", b.name), map[string]any{"key": b.name, "alg": b.alg.String(), "signature": hx(sig)})
+				break
+			}
+			var derr error
+			p2, _ := protect(func() { derr = vf.Verify(tbs, sig) })
+			if !p2 && derr == nil && len(sig) > 0 {
+				c.Fail("C03/verdict", fmt.Sprintf("the built-in verifier returned nil under a public key that is not a key (%s)", b.name), map[string]any{"key": b.name, "alg": b.alg.String(), "signature": hx(sig)})
+				break
+			}
 		}
 	}
 }
